@@ -2,7 +2,7 @@
    Only statements, closed by [exact lemma], with Print Assumptions beneath. *)
 From Coq Require Import String List NArith ZArith Bool.
 From J5V.lib Require Import Outcome.
-From J5V.model Require Import RulesDecl RulesWrite RulesRead Validate.
+From J5V.model Require Import RulesDecl RulesWrite RulesRead RulesEnum Validate.
 From J5V.gen Require Id62Gen RulesGen.
 From J5V.proofs Require Import RulesProofs RulesReadProofs RulesGenProofs RulesReadGenProofs.
 Import ListNotations.
@@ -48,6 +48,22 @@ Print Assumptions C04_proto_paths.
 Theorem C04_norm_int_meaning : forall r z, int_rule_ok (norm_int r) z = int_rule_ok r z.
 Proof. exact norm_int_sem. Qed.
 Print Assumptions C04_norm_int_meaning.
+
+(* enums as root schemas: description, prefix, option names (short), numbers
+   (UNSPECIFIED = 0, the others 1..n in order) and option descriptions *)
+Theorem C04_enum : forall e, unspec_ok e = true -> read_enum (write_enum e) = Ok (norm_enum e).
+Proof. exact c04_enum. Qed.
+Print Assumptions C04_enum.
+
+(* ... except when the explicit first option is some other name ending in
+   UNSPECIFIED: the reader derives the prefix from it *)
+Theorem C04_enum_unspecified_refuted :
+  exists e, read_enum (write_enum e) <> Ok (norm_enum e).
+Proof.
+  exists (ED [] [67;95] [([88;95;85;78;83;80;69;67;73;70;73;69;68], []); ([82], [])]).
+  vm_compute. discriminate.
+Qed.
+Print Assumptions C04_enum_unspecified_refuted.
 
 (* What is missing, each with a witness on the faithful model that replays on
    the real compiler + reflector (KNOWN_FINDINGS.txt): *)
